@@ -362,6 +362,12 @@ func (ch c04) Run(c *core.Ctx) {
 			{0, 0, 0, 1, 0, 0, 0, 0, 0, 0, 0, 23, 0, 0, 0, 2, 0, 0, 0, 1, 0x02, 0, 0, 0x2c, 1},
 			{},
 			{1},
+			// text representations: dimension decoration announcing millions of elements, deep nesting,
+			// unterminated and very long element lists, long digit strings
+			[]byte("[1:3000000]={1}"), []byte(" [1:1][1:3000000]={{1}}"), []byte("[-1500000:1500000]={1}"),
+			[]byte(strings.Repeat("{", 20000)), []byte(strings.Repeat("{", 5000) + "1" + strings.Repeat("}", 5000)), []byte("{1,2"),
+			[]byte("{" + strings.Repeat("1,", 20000) + "1}"), []byte("(" + strings.Repeat(",", 20000) + ")"), []byte("{" + strings.Repeat("[1,2),", 10000) + "}"),
+			[]byte(strings.Repeat("9", 20000)), []byte("1e2147483647"), []byte("1e-2147483647"), []byte("infinity"), []byte("294277-01-01"),
 		}
 		rng := core.NewRng(c.Seed, "C04types", 0, 0)
 		for k := 0; k < 24; k++ {
